@@ -4,6 +4,7 @@
    message nacked on the cancelled context, AAbortSrc = the source ends without draining). *)
 From Verif Require Import Stop.Stop Stop.StopProofs Stop.ForceStop Stop.ForceStopProofs.
 From Verif Require Stop.Events Stop.Check Stop.CheckProofs Stop.GenStop Stop.GenStopProofs Stop.GenStopSim.
+From Verif Require Import Stop.Lifecycle Stop.LifecycleProofs.
 
 Theorem C12_force_latch : forall l, count_start l = 1 -> In FStop l ->
   cancelled (frun l) = true /\ nil_called (frun l) = false.
@@ -43,6 +44,42 @@ Theorem C12_force_stop_terminates_partial : forall e s, (exists l, run (init e) 
   exists l s', run s l = Some s' /\ status s' <> PRunning /\ length l <= fvariant s + 1.
 Proof. exact force_stop_terminates. Qed.
 Print Assumptions C12_force_stop_terminates_partial.
+
+(* ---- the life of a pipeline (Stop/Lifecycle.v): the Teardown calls that end a force-stopped run are made with
+   the cancelled connector context and may answer with its error; afterwards the pipeline is started again ---- *)
+(* a run that ended - degraded by the force stop, or stopped gracefully - can be started again whatever its Teardown
+   calls answered (every connector instance was released); the new run opens the source at the durable position:
+   no record without its final outcome is skipped, and no ack the plugin ever received lies beyond it *)
+Theorem C12_ended_run_restartable : forall e l x, xrun (xinit e) l = Some x ->
+  status (xb x) = PDegradedForce \/ status (xb x) = PUserStopped ->
+  exists x', xstep x XRestart = Some x' /\
+    status (xb x') = PRunning /\ srcinst x' = true /\ dstinst x' = true /\
+    resumed x' = stored (flush (xb x)) /\ taken (xb x') = resumed x' /\ pack (xb x') = resumed x' /\
+    resumed x' <= handled (xb x) /\ pack (xb x) <= resumed x'.
+Proof. exact ended_run_restartable. Qed.
+Print Assumptions C12_ended_run_restartable.
+
+Theorem C12_teardown_answer_irrelevant : forall x a x1 x2,
+  xstep x (XStep a false) = Some x1 -> xstep x (XStep a true) = Some x2 ->
+  xb x2 = xb x1 /\ srcinst x2 = srcinst x1 /\ dstinst x2 = dstinst x1 /\ tdfails x2 = S (tdfails x1).
+Proof. exact teardown_answer_irrelevant. Qed.
+Print Assumptions C12_teardown_answer_irrelevant.
+
+(* every run of a life - the first, or one started after a force stop - is a run of Stop.v: the theorems above
+   (acks only for handled records, degraded without automatic restart, termination) hold of each of them *)
+Theorem C12_life_is_a_run_of_the_stop_protocol : forall e x, (exists l, xrun (xinit e) l = Some x) ->
+  exists l, run (init e) l = Some (xb x).
+Proof. exact x_projects. Qed.
+Print Assumptions C12_life_is_a_run_of_the_stop_protocol.
+
+(* non-vacuity: force stop mid-batch, both Teardown rounds fail on the cancelled context, restart, next record *)
+Example C12_nonvacuous_restart :
+  exists x, xrun (xinit true)
+    [XStep AEmit false; XStep AEmit false; XStep ATake false; XStep ATake false; XStep AHandled false; XStep AEAck false;
+     XStep AForce false; XStep ACut false; XStep AAbortSrc true; XStep ADownTear true; XStep ACleanup false;
+     XRestart; XStep AEmit false; XStep ATake false] = Some x /\
+    status (xb x) = PRunning /\ tdfails x = 2 /\ runs x = 2 /\ resumed x = 1 /\ taken (xb x) = 2 /\ prev_pack x = 0.
+Proof. eexists. vm_compute. repeat split. Qed.
 
 (* what acceptance of an observed event log means (the acceptor of coq/Stop/Check.v is prefix closed;
    in an accepted log a plugin ack is preceded by a commit that covers it, commits move forward only
